@@ -190,6 +190,8 @@ type Opts struct {
 	Extra         []store.Option
 	AfterOp       func(r *Runner, i int, op Op)
 	BeforeReopen  func(r *Runner)
+	AfterClose    func(r *Runner) // between Close and the following Open of a reopen
+	AfterFlush    func(r *Runner) // after a successful Flush (also the one inside NewIterator)
 }
 
 type Runner struct {
@@ -408,6 +410,8 @@ func (r *Runner) Exec(i int, o Op) {
 			r.Res.Add("op_flush", 1)
 			if err != nil {
 				r.viol("flush-error", "flush-error", nil, "Flush failed: %v", err)
+			} else if r.Opt.AfterFlush != nil {
+				r.Opt.AfterFlush(r)
 			}
 			r.quiescent("flush")
 		case "iter":
@@ -432,6 +436,7 @@ func (r *Runner) Exec(i int, o Op) {
 func (r *Runner) iterate() {
 	it := r.S.NewIterator()
 	r.Res.Add("op_iter", 1)
+
 	seen := map[string][]byte{}
 	for {
 		k, v, err := it.Next()
@@ -718,6 +723,9 @@ func (r *Runner) reopen(o Op) {
 			}
 			r.compareContent(res, "close")
 		}
+	}
+	if r.Opt.AfterClose != nil {
+		r.Opt.AfterClose(r)
 	}
 	mode := o.A
 	if r.Opt.TripleReopen {
